@@ -1131,14 +1131,28 @@ impl<'ast, 'res> Resolver<'ast, 'res> {
                 .join(ExprClass::PureMayTrap),
             Expr::Binary { op, lhs, rhs, .. } => {
                 let class = self.classify_expr(lhs).join(self.classify_expr(rhs));
-                if matches!(op, BinaryOp::Divide | BinaryOp::Mod) {
+                // Static types are advisory (`x get <expr>` may change a variable's runtime
+                // type), so an operator can only be trusted not to stop the run when both
+                // operand types follow from the literals in the expression itself.
+                if matches!(op, BinaryOp::Divide | BinaryOp::Mod)
+                    || Self::literal_expr_type(expr).is_none()
+                {
                     class.join(ExprClass::PureMayTrap)
                 } else {
                     class
                 }
             }
-            Expr::Unary { expr, .. } => self.classify_expr(expr),
-            Expr::Member { object, .. } => self.classify_expr(object),
+            Expr::Unary { expr: operand, .. } => {
+                let class = self.classify_expr(operand);
+                if Self::literal_expr_type(expr).is_none() {
+                    class.join(ExprClass::PureMayTrap)
+                } else {
+                    class
+                }
+            }
+            Expr::Member { object, .. } => {
+                self.classify_expr(object).join(ExprClass::PureMayTrap)
+            }
             Expr::Call { callee, args, .. } => {
                 let mut class = args
                     .args
@@ -1149,12 +1163,21 @@ impl<'ast, 'res> Resolver<'ast, 'res> {
                     Expr::Var(func_name, ..) => {
                         if let Some(builtin) = GlobalBuiltin::from_name(func_name) {
                             class = class.join(effects::global_builtin_class(builtin));
+                            // `command` needs a string; only a literal argument guarantees one.
+                            if matches!(builtin, GlobalBuiltin::Command)
+                                && args.args.first().copied().and_then(Self::literal_expr_type)
+                                    != Some(ValueType::String)
+                            {
+                                class = class.join(ExprClass::PureMayTrap);
+                            }
                         } else if self.lookup_func(func_name).is_none() {
                             class = class.join(ExprClass::Impure);
                         }
                     }
                     Expr::Member { object, field, .. } => {
-                        class = class.join(self.classify_expr(object));
+                        // Methods are dispatched on the receiver's runtime type and validate
+                        // their arguments at run time: any member call can stop the run.
+                        class = class.join(self.classify_expr(object)).join(ExprClass::PureMayTrap);
                         if let Some(builtin) = MemberBuiltin::from_name(field) {
                             class = class.join(effects::member_builtin_class(builtin));
                         } else {
@@ -1166,6 +1189,72 @@ impl<'ast, 'res> Resolver<'ast, 'res> {
 
                 class
             }
+        }
+    }
+
+    /// Type of an expression built from literals and operators only, when the runtime has a
+    /// case for every operator in it; `None` for anything whose type depends on a variable,
+    /// a call, an index or a member access.
+    fn literal_expr_type(expr: ExprRef<'ast>) -> Option<ValueType> {
+        match expr {
+            Expr::Number(..) => Some(ValueType::Number),
+            Expr::String { .. } => Some(ValueType::String),
+            Expr::Bool(..) => Some(ValueType::Bool),
+            Expr::Null(..) => Some(ValueType::Null),
+            Expr::Unary { op, expr, .. } => match (op, Self::literal_expr_type(expr)?) {
+                (UnaryOp::Not, ValueType::Bool | ValueType::Null) => Some(ValueType::Bool),
+                (UnaryOp::Minus, ValueType::Number) => Some(ValueType::Number),
+                _ => None,
+            },
+            Expr::Binary { op, lhs, rhs, .. } => {
+                let l = Self::literal_expr_type(lhs)?;
+                let r = Self::literal_expr_type(rhs)?;
+                match (op, l, r) {
+                    (
+                        BinaryOp::Add
+                        | BinaryOp::Minus
+                        | BinaryOp::Times
+                        | BinaryOp::Divide
+                        | BinaryOp::Mod,
+                        ValueType::Number,
+                        ValueType::Number,
+                    ) => Some(ValueType::Number),
+                    (
+                        BinaryOp::Add,
+                        ValueType::String,
+                        ValueType::String | ValueType::Number,
+                    )
+                    | (BinaryOp::Add, ValueType::Number, ValueType::String) => {
+                        Some(ValueType::String)
+                    }
+                    (
+                        BinaryOp::Eq | BinaryOp::Gt | BinaryOp::Lt,
+                        ValueType::Number,
+                        ValueType::Number,
+                    )
+                    | (
+                        BinaryOp::Eq | BinaryOp::Gt | BinaryOp::Lt,
+                        ValueType::String,
+                        ValueType::String,
+                    )
+                    | (BinaryOp::Eq | BinaryOp::Gt | BinaryOp::Lt, ValueType::Bool, ValueType::Bool)
+                    | (BinaryOp::Eq | BinaryOp::Gt | BinaryOp::Lt, ValueType::Null, ..)
+                    | (BinaryOp::Eq | BinaryOp::Gt | BinaryOp::Lt, .., ValueType::Null) => {
+                        Some(ValueType::Bool)
+                    }
+                    (
+                        BinaryOp::And | BinaryOp::Or,
+                        ValueType::Bool | ValueType::Null,
+                        ValueType::Bool | ValueType::Null,
+                    ) => Some(ValueType::Bool),
+                    _ => None,
+                }
+            }
+            Expr::Var(..)
+            | Expr::Array { .. }
+            | Expr::Index { .. }
+            | Expr::Member { .. }
+            | Expr::Call { .. } => None,
         }
     }
 
